@@ -163,12 +163,16 @@ PROPS = {    "C01": {
     },
     "C12": {
         "module": "ZenonVerif.Props.C12",
-        "streams": [S("pow", 20000, 1000000)],
+        "streams": [S("pow", 20000, 1000000), S("plasma", 40, 3000, timeout=7200)],
         "rule": "pow stream: boundary set + random uint64 difficulties (a sixth each: boundary, small, 2^k±2, top-bit set, "
                 "shifted, uniform), 8-byte comparisons (equal / one-bit apart / random), fused amounts around unit and cap "
-                "boundaries; distinct = distinct (op,result) lines; every line is evaluated on the real code and the model",
-        "partial": "SHA3 is a parameter (hash prefix supplied as input); enoughPlasma decision on ledger states is tied by "
-                   "the plasma stream once the mock-node harness is attached",
+                "boundaries; plasma stream: histories on a real node where accounts without genesis plasma get QSR fused (amounts around "
+                "unit/base/cap boundaries), fusions are cancelled again, and the accounts publish bursts of 1-6 unconfirmed blocks "
+                "(receive, sends with boundary data lengths, embedded calls, older acknowledged momentums) with chosen fused plasma, "
+                "delivered raw with sender-chosen BasePlasma/TotalPlasma; verdict + independently read facts go to the enoughPlasma "
+                "model, monitors state the property on every accepted block; distinct = distinct (op,result) lines",
+        "partial": "SHA3 is a parameter (hash prefix supplied as input); PoW-earned plasma on a real node is exercised only "
+                   "through CheckPoWNonce with synthetic hashes (mining a nonce is too slow for a stream)",
         "assumptions": ["SHA3-256 is an uninterpreted parameter of checkPoWNonce"],
     },
     "C13": {
